@@ -1116,7 +1116,7 @@ def _rand_corrupt(rnd, w):
     """the environment damages the stored file between two runs"""
     raw = w.fs.files.get(TARGET)
     r = rnd.random()
-    if raw is None or r < 0.1:
+    if not raw or r < 0.1:
         w.fs.files.pop(TARGET, None)
         return
     if r < 0.3:
@@ -1354,7 +1354,9 @@ def _step_signature(acts, bad):
     a = acts[bad['step']]
     f = a.get('f') or {}
     d = bad.get('diff', [])
-    clause = ('Retry' if d == ['skip'] else 'Atomic' if 'target' in d and a['act'] != 'start' else
+    clause = ('Retry' if d == ['skip'] else
+              'Atomic' if 'target' in d and f.get('kind', 'none') != 'none' else
+              'Saved' if 'target' in d and a['act'] in ('change', 'save') else
               'WriteDict' if d == ['wd'] else 'State')
     return {'module': 'Persistent', 'clause': clause, 'act': a['act'], 'fault': f.get('kind', 'none'),
             'op': f.get('op', ''), 'diff': d}
